@@ -720,6 +720,7 @@ class Dragonbox(ScalarKernel):
             # both fold to constants (exhaustive over the 254 / 2046 such inputs when swept)
             self.concrete = {"bits": E << p}
             self.pre = None
+            self.prop_strategies = None     # constants only: the integer encoding answers at once
 
     def _mrange(self):
         p = FLOAT_PARAMS[self.f]["p"]
